@@ -102,6 +102,8 @@ def finish(res, mod, a):
         harness_err.append("shadow replay mismatch in %s %s: %s" % (s["h"], json.dumps(s["inputs"], default=str), s["why"][:1500]))
     if res["fatal"]:
         harness_err.append(res["fatal"])
+    for d in res.get("xs_disagree", [])[:3]:
+        harness_err.append("second solver disagrees on a final query: %s" % json.dumps(d))
     if res["agg"]["reached"] == 0 and not cands:
         harness_err.append("vacuous: no path reached a final query")
     minp = getattr(mod, "MIN_PATHS", {}).get(tier, 1)
@@ -157,6 +159,9 @@ def write_evidence(res, mod, exhaustive, nviol, known_ids, harness_err):
         inconclusive=int(st.get("inconclusive", 0)),
         paths_reaching_final_query=int(res["agg"]["reached"]),
         max_decision_depth=int(res["agg"]["max_depth"]),
+        second_solver=dict(solver="cvc5 binary (Debian 1.0.x) on z3's SMT-LIB2 dump of sampled final queries",
+                           checked=int(st.get("xs_checked", 0)), agree=int(st.get("xs_agree", 0)),
+                           no_answer=int(st.get("xs_unknown", 0)), disagree=len(res.get("xs_disagree", []))),
         known_findings=known_ids,
         harness_errors=harness_err,
         solver="z3 " + _z3v(),
